@@ -4,6 +4,7 @@
 // zombie/reap rules stay the real kernel's. Children are puppets that act only
 // when the script says so and acknowledge every action, so "when" is exact.
 #pragma once
+#include <functional>
 
 #include <cerrno>
 #include <climits>
@@ -25,7 +26,7 @@
 
 namespace vt {
 
-enum ActKind { A_WRITE, A_CLOSE, A_EXIT, A_RAISE, A_READ };
+enum ActKind { A_WRITE, A_CLOSE, A_EXIT, A_RAISE, A_READ, A_CALL };
 
 struct Action {
   int kid;
@@ -140,6 +141,14 @@ public:
   }
 
   void schedule(int64_t at, int kid, int kind, uint32_t a = 0, uint64_t b = 0) { agenda.insert({ at, Action{ kid, kind, a, b } }); }
+  // Something the test itself does at a virtual moment (it must have taken
+  // effect - in real time - by the time it returns).
+  std::vector<std::function<void()>> calls;
+  void schedule_call(int64_t at, std::function<void()> fn)
+  {
+    calls.push_back(std::move(fn));
+    agenda.insert({ at, Action{ -1, A_CALL, (uint32_t) calls.size() - 1, 0 } });
+  }
 
   // Call before a library call whose blocking behaviour is judged: the dry
   // period (see `horizon`) is counted per call.
@@ -172,6 +181,10 @@ public:
 
   void perform(const Action &a)
   {
+    if (a.kind == A_CALL) {
+      calls[a.a]();
+      return;
+    }
     Kid &k = kids[(size_t) a.kid];
     if (!k.alive) return;
     pup_ack ack;
